@@ -93,7 +93,12 @@ namespace vh
             std::unique_lock<std::mutex> lk(S.m);
             if (!S.active)
                 return;
-            if (site == hk::g_neighbors || site == y_kernel)
+#ifdef FSL_VERIF_HAS_KNOBS
+            const bool router_point = site == 41;   // verif::r_neighbor (trees that have it)
+#else
+            const bool router_point = false;
+#endif
+            if (site == hk::g_neighbors || site == y_kernel || router_point)
             {
                 // interior points of the work items: schedule points for controlled workers only
                 if (my_slot < 1)
@@ -620,7 +625,8 @@ namespace vh
                 ++grants;
                 size_t e = slog.find('\n', pos);
                 std::string ln = slog.substr(pos, e - pos);
-                if (ln.find("\"s\":40,") != std::string::npos || ln.find("\"s\":60,") != std::string::npos)
+                if (ln.find("\"s\":40,") != std::string::npos || ln.find("\"s\":60,") != std::string::npos
+                    || ln.find("\"s\":41,") != std::string::npos)
                     ++inner;
                 if (ln.find("\"s\":60,") != std::string::npos)
                     ++kern;
